@@ -12,7 +12,7 @@ import (
 // C13 — persisting is incremental, writes no garbage, and clean means unchanged.
 
 var c13Weights = core.OpWeights{
-	core.OpInsert: 14, core.OpInsertNew: 14, core.OpUpdate: 8, core.OpInsertSame: 6, core.OpDelete: 16, core.OpGet: 4, core.OpIter: 2,
+	core.OpInsert: 14, core.OpInsertNew: 14, core.OpUpdate: 8, core.OpInsertSame: 6, core.OpDelete: 14, core.OpDeleteTop: 4, core.OpGet: 4, core.OpIter: 2,
 	core.OpDelAbsent: 2, core.OpDelWrong: 2, core.OpClone: 3, core.OpPersist: 24, core.OpReload: 8, core.OpReloadJSON: 2, core.OpDrain: 1,
 }
 
